@@ -46,12 +46,24 @@ class Ctx:
     def cfgs(self, quick=("000", "111")):
         return list(quick) if self.tier == "quick" else ["000", "001", "010", "011", "100", "101", "110", "111"]
 
-    def gen(self, cfg, salt=0):
+    def baseline(self):
+        base = os.path.join(ROOT, "tools", "baseline_schema.json")
+        if not hasattr(self, "_baseline"):
+            self._baseline = json.load(open(base)) if os.path.exists(base) else None
+        return self._baseline
+
+    def matches_baseline(self, cfg):
+        """is the regenerated schema of this configuration the pinned tree's?"""
+        b = self.baseline()
+        return b is not None and json.dumps(b["schemas"][cfg]["types"], sort_keys=True) == \
+            json.dumps(self.data["schemas"][cfg]["types"], sort_keys=True)
+
+    def gen(self, cfg, salt=0, actual=False):
         # when the proof / tie is broken we search for a failing input among the messages the
         # *specification* allows: generate from the pinned-tree baseline schema, not from the
         # (possibly changed) regenerated one
         data = self.data
-        if getattr(self, "use_baseline", False):
+        if getattr(self, "use_baseline", False) and not actual:
             base = os.path.join(ROOT, "tools", "baseline_schema.json")
             if os.path.exists(base):
                 if not hasattr(self, "_baseline"):
@@ -135,7 +147,15 @@ def execute(ctx, cases, corr):
                 if why:
                     c.oracle = "not canonical: " + why
                     corr["oracle_failures"].append(c)
-        elif getattr(c, "same_as", None) is not None and c.same_as.impl is not None and c.impl != c.same_as.impl:
+        elif getattr(c, "same_as", None) is not None and (c.same_as.impl or "bad-case").startswith("bad-case"):
+            pass
+        elif getattr(c, "same_fn", None) is not None and c.same_as.impl is not None and \
+                c.same_fn(c.same_as.impl) is not None and c.impl != c.same_fn(c.same_as.impl):
+            c.oracle = "across configurations: " + c.same_as.hline[:120] + " -> " + c.same_as.impl[:200] + \
+                       " ; expected here " + c.same_fn(c.same_as.impl)[:200]
+            corr["oracle_failures"].append(c)
+        elif getattr(c, "same_fn", None) is None and getattr(c, "same_as", None) is not None and \
+                c.same_as.impl is not None and c.impl != c.same_as.impl:
             # the property itself: this message must decode exactly like its companion
             c.oracle = "same as: " + c.same_as.hline[:120] + " -> " + c.same_as.impl[:200]
             corr["oracle_failures"].append(c)
@@ -1091,6 +1111,166 @@ def cases_c02(ctx, boost):
     return out
 
 
+# =============================================================================== C16
+def embed_val(sa, sb, ta, tb, v):
+    """the value `v` of type ta (schema sa) seen in schema sb: same members, new ones unset.
+    None when a member of ta that is set has no counterpart in tb."""
+    if v is None:
+        return None
+    ra, rb = sa.res(ta), sb.res(tb)
+    if "vec" in ra and "vec" in rb:
+        xs = [embed_val(sa, sb, ra["elem"], rb["elem"], x) for x in v[1]]
+        return None if any(x is None for x in xs) else ('l', xs)
+    if "untagged" in ra and "untagged" in rb:
+        if v[1] >= len(rb["untagged"]):
+            return None
+        x = embed_val(sa, sb, ra["untagged"][v[1]]["ty"], rb["untagged"][v[1]]["ty"], v[2])
+        return None if x is None else ('v', v[1], x)
+    if "fields" in ra and "fields" in rb:
+        byname = {f["rust"]: (f, slot) for f, slot in zip(ra["fields"], v[1])}
+        names_b = {f["rust"] for f in rb["fields"]}
+        for n, (f, slot) in byname.items():
+            if slot is not None and n not in names_b:
+                return None
+        slots = []
+        for fb in rb["fields"]:
+            if fb["rust"] in byname and byname[fb["rust"]][1] is not None:
+                fa, slot = byname[fb["rust"]]
+                x = embed_val(sa, sb, fa["ty"], fb["ty"], slot)
+                if x is None:
+                    return None
+                slots.append(x)
+            else:
+                slots.append(None)
+        return ('r', slots)
+    return v
+
+
+def cfg_le(a, b):
+    return all(x <= y for x, y in zip(a, b))
+
+
+def cases_c16(ctx, boost):
+    from pymodel import parse
+    out = []
+    allc = ["000", "001", "010", "011", "100", "101", "110", "111"]
+    if ctx.tier == "quick":
+        pairs = [("000", "111")]
+    else:
+        pairs = [(a, b) for a in allc for b in allc if a != b and cfg_le(a, b)]
+    for a, b in pairs:
+        # "the same member" is a statement about the source's member names: values are generated from,
+        # and moved between, the schemas of the tree as it is; the specification oracle (which reads
+        # member lists positionally) only has a verdict where the regenerated schema is the pinned one
+        ga, gb = ctx.gen(a, salt=int(b, 2) + 1, actual=True), ctx.gen(b, actual=True)
+        oa, ob = ctx.matches_baseline(a), ctx.matches_baseline(b)
+        rng = ga.rng
+        sa, sb = ga.s, gb.s
+        sja, sjb = ctx.data["schemas"][a], ctx.data["schemas"][b]
+
+        def pair(ca, cb, fn=None):
+            ca.oracle_applies, cb.oracle_applies = oa, ob
+            cb.same_as = ca
+            if fn is not None:
+                cb.same_fn = fn
+            out.append(ca)
+            out.append(cb)
+
+        # ---- responses: identical bytes
+        vb = dict((v, p) for v, p in sjb["variants"]["response_variants"])
+        for variant, payload in sja["variants"]["response_variants"]:
+            if variant not in vb:
+                continue
+            if payload is None:
+                pair(Case("resp", a, f"resp {a} {variant} - 64 -", tag="resp parameter-less"),
+                     Case("resp", b, f"resp {b} {variant} - 64 -", tag="resp parameter-less"))
+                continue
+            ta, tb = {"named": payload}, {"named": vb[variant]}
+            vals = [sa.min_value(ta)]
+            r = sa.res(ta)
+            # every single optional member alone, then random subsets
+            usable = [i for i, f in enumerate(r["fields"]) if f["rust"] in r["rust"]["pub_fields"]]
+            for i in usable:
+                if sa.is_opt_field(r, r["fields"][i]):
+                    full = ga.rand_val(ta, p_opt=1.0)
+                    mn = sa.min_value(ta)
+                    vals.append(('r', [full[1][j] if j == i else mn[1][j] for j in range(len(mn[1]))]))
+            for _ in range(12 * boost):
+                vals.append(ga.rand_val(ta, p_opt=rng.choice([0.3, 0.7, 1.0])))
+            for v in vals:
+                if not ga.val_buildable(ta, v):
+                    continue
+                e = embed_val(sa, sb, ta, tb, v)
+                if e is None or not gb.val_buildable(tb, e):
+                    continue
+                pair(Case("resp", a, f"resp {a} {variant} {show(v)} 8192 -", tag=f"resp {variant}"),
+                     Case("resp", b, f"resp {b} {variant} {show(e)} 8192 -", tag=f"resp {variant}"))
+        # ---- authenticator data with extension outputs: identical bytes
+        for fl in ("MC", "GA"):
+            ta, tb = {"named": sa.roles["adExt" + fl]}, {"named": sb.roles["adExt" + fl]}
+            for _ in range(10 * boost):
+                v = ga.rand_val(ta, p_opt=rng.choice([0.3, 1.0]))
+                e = embed_val(sa, sb, ta, tb, v)
+                if e is None:
+                    continue
+                rp = rng.randbytes(32).hex()
+                mask, cnt = rng.randrange(16), rng.randrange(2 ** 32)
+                pair(Case("adat", a, f"adat {a} {fl} {rp} {mask} {cnt} - {show(v)}", tag="authData " + fl),
+                     Case("adat", b, f"adat {b} {fl} {rp} {mask} {cnt} - {show(e)}", tag="authData " + fl))
+        # ---- requests: equal values
+        vrb = dict((v, p) for v, p in sjb["variants"]["request_variants"])
+        for variant, payload in sja["variants"]["request_variants"]:
+            if not payload or payload == "vendor" or variant not in vrb:
+                for cb_ in CMD_BYTE.get(variant, [])[:1]:
+                    pair(Case("req", a, f"req {a} {cb_:02x}", tag="req parameter-less"),
+                         Case("req", b, f"req {b} {cb_:02x}", tag="req parameter-less"))
+                continue
+            ta, tb = {"named": payload}, {"named": vrb[variant]}
+
+            def expect(impl_a, ta=ta, tb=tb):
+                w = impl_a.split(" ")
+                if w[0] != "ok" or len(w) != 3:
+                    return None         # rejected in the smaller configuration: C12 / C05 territory
+                e = embed_val(sa, sb, ta, tb, parse(w[2]))
+                return None if e is None else f"ok {w[1]} {show(e)}"
+
+            for tag, body in request_messages(ga, variant, payload, 16 * boost, subsets=True):
+                for cb_ in CMD_BYTE.get(variant, []):
+                    pair(Case("req", a, f"req {a} {cb_:02x}{body.hex()}", tag=f"req {variant} {tag}"),
+                         Case("req", b, f"req {b} {cb_:02x}{body.hex()}", tag=f"req {variant} {tag}"), expect)
+        # ---- every (de)serialisable type reachable from the roles
+        refs_b = {key: path for path, key, _ in gb.all_refs()}
+        for path, key, t in ga.all_refs():
+            if key not in refs_b:
+                continue
+            r = sa.res(t)
+            tb = {"named": key}
+            for _ in range(4 * boost):
+                v = ga.rand_val(t, p_opt=rng.choice([0.2, 0.6, 1.0]))
+                e = embed_val(sa, sb, t, tb, v)
+                if e is None:
+                    continue
+                if r["caps"]["ser"] and ga.val_buildable(t, v) and gb.val_buildable(tb, e):
+                    pair(Case("enc", a, f"enc {a} {key} {show(v)}", f"enc {a} {path} {show(v)}", tag="type enc"),
+                         Case("enc", b, f"enc {b} {key} {show(e)}", f"enc {b} {refs_b[key]} {show(e)}", tag="type enc"))
+                if r["caps"]["de"]:
+                    try:
+                        bts = casegen.enc_item(ga.wire_item(t, v, lossy=0.3))
+                    except (ValueError, TypeError, IndexError):
+                        continue
+
+                    def expect_d(impl_a, t=t, tb=tb):
+                        w = impl_a.split(" ")
+                        if w[0] != "ok" or len(w) != 2:
+                            return None
+                        e = embed_val(sa, sb, t, tb, parse(w[1]))
+                        return None if e is None else f"ok {show(e)}"
+                    pair(Case("dec", a, f"dec {a} {key} {bts.hex()}", f"dec {a} {path} {bts.hex()}", tag="type dec"),
+                         Case("dec", b, f"dec {b} {key} {bts.hex()}", f"dec {b} {refs_b[key]} {bts.hex()}", tag="type dec"),
+                         expect_d)
+    return out
+
+
 NOT_YET = {}
 
 PROPS = {
@@ -1291,6 +1471,26 @@ PROPS = {
                     "harness has that const-generic instantiation, 64,256,1024,3072,7609} × prior {empty, half, full sentinel}",
             "assumptions": ["capacity >= 1 (the property's hypothesis; capacity 0 would panic in split_first_mut().unwrap())",
                             "the serializer's chunking is abstracted: the theorem holds for every chunking"]},
+    "C16": {"ns": "C16", "cases": cases_c16, "uses": ["ext_encode", "rt"],
+            "level_text": "Proof. G-EXT (Ctap/Extend.lean, mutual induction): if schema t' extends schema t — integer-keyed "
+                          "structs only gain optional skipped members after all existing ones, text-keyed structs gain optional "
+                          "skipped members anywhere, every existing member keeps key, aliases, type, optionality, reader and "
+                          "serialisation mode, byte-string capacities may only grow — then every value of t is written to "
+                          "identical bytes under t' with the new members unset (same_bytes), and (with G-RT) the encoding of any "
+                          "value of t decodes to that value under t and to its embedding under t' (same_values). Obligations "
+                          "(decide +kernel, regenerated schemas): ext holds for all request, response and extension-output "
+                          "roots for all 27 ordered pairs of the 8 configurations (any two configurations meet in their "
+                          "intersection: meet_le); std and arbitrary leave every schema and table unchanged; only the three "
+                          "wire features gate anything. Correspondence: the same corpus through harness builds of both "
+                          "configurations, byte-for-byte (responses, authenticator data, every serialisable type) and "
+                          "value-for-value (requests, every deserialisable type) — plus each side against model and oracle.",
+            "rule": "quick: the pair (no features, all three); thorough: all 19 strict pairs c ⊂ c'. Per pair: every response "
+                    "kind × {minimal, each optional member alone, random subsets}; authenticator data × random extension "
+                    "outputs; every request kind × {every subset of optional members (≤ 2^8), random + lossy}; every "
+                    "reachable type × random values (encode and decode). A case of the larger configuration is compared to "
+                    "its companion of the smaller one (bytes equal / value equal to the embedding)",
+            "assumptions": ["std / arbitrary: decided statically by the translator (regenerated schemas and tables identical "
+                            "with and without them); the harness is not built with them for this property (C19 builds arbitrary)"]},
     "C18": {"ns": "C18", "cases": cases_c18,
             "level_text": "Proof. Generic table theorems (G-TABLE: lookupStr_zip_range, indexOf_iff) show that a string / number "
                           "table with pairwise distinct entries accepts exactly the listed spellings / discriminants, for every "
